@@ -17,6 +17,11 @@ ASSUMPTIONS = [
     "variable only; next_rule is not part of the property",
     "tree grammar: a node has at most one `refinement` child; further members of its exception chain are `alternative`s "
     "written inside that refinement's block; base-level alternatives are written at the rule's own level",
+    "branches that introduce their own variable (as the suite's trees do) are leaves; an assignment sigma binds x and every "
+    "branch variable. The statement does not say whether a refinement applies per assignment or as soon as some witness exists "
+    "(the engine treats refinements the second way and alternatives the first), so only what BOTH readings agree on is demanded: "
+    "a conclusion selected under every sigma (agreeing with it on its own variable) must be present, one selected under no sigma "
+    "must be absent; multiplicity is not demanded for such trees",
     "reference: rule(chain): first node whose condition holds fires; fire(node): the conclusion of its exception chain if "
     "one fires, else its own (the reading under which the suite's eleven rule-tree tests pass)",
 ]
@@ -32,6 +37,7 @@ WALL_BUDGET = {"quick": 420, "thorough": 3200}
 @dataclass(eq=False)
 class Concl:
     it: Any = None
+    other: Any = None
 
 
 def _mk(i):
@@ -118,14 +124,27 @@ def all_trees(B):
 class C12(Case):
     prop = "C12"
 
+    def node_cond(self, n, x):
+        """Branch condition; a 'bin' node introduces its own fresh variable y over the second pool: x.<f> < y.a."""
+        if n.get("bin"):
+            y = let(S.Other, domain=self._ys)
+            self._yvars[n["i"]] = y
+            f = COND_FIELDS[n["i"]]
+            lhs = getattr(x, f) if f in ("a", "b", "c") else (x.t[0] if f == "t0" else x.t[1] if f == "t1" else x.d["k"] if f == "dk" else x.s[0])
+            return lhs < y.a
+        return cond_expr(x, n["i"])
+
     def emit_body(self, n, v, x):
-        Add(v, TYPES[n["i"]](it=x))
+        if n.get("bin"):
+            Add(v, TYPES[n["i"]](it=x, other=self._yvars[n["i"]]))
+        else:
+            Add(v, TYPES[n["i"]](it=x))
         if n.get("exc"):
             first, rest = n["exc"][0], n["exc"][1:]
-            with refinement(cond_expr(x, first["i"])):
+            with refinement(self.node_cond(first, x)):
                 self.emit_body(first, v, x)
                 for m in rest:
-                    with alternative(cond_expr(x, m["i"])):
+                    with alternative(self.node_cond(m, x)):
                         self.emit_body(m, v, x)
 
     def run(self, mk):
@@ -133,7 +152,9 @@ class C12(Case):
         tree = sp["tree"]
         n = sp.get("n", 2)
         items = S.make_objects(mk, Item, "x", n, extra=("t", "d", "s"))
-        data = dict(items=items, res=None)
+        self._ys = S.make_objects(mk, S.Other, "y", 2) if sp.get("binary") else []
+        self._yvars = {}
+        data = dict(items=items, res=None, ys=self._ys)
         if sp.get("cache") == "off":
             disable_caching()
         try:
@@ -146,7 +167,7 @@ class C12(Case):
             with rule_mode(q):
                 self.emit_body(tree[0], v, x)
                 for m in tree[1:]:
-                    with alternative(cond_expr(x, m["i"])):
+                    with alternative(self.node_cond(m, x)):
                         self.emit_body(m, v, x)
             res = list(q.evaluate())
             out = self._view(res, items)
@@ -163,15 +184,19 @@ class C12(Case):
         for r in res:
             ti = TYPES.index(type(r)) if type(r) in TYPES else -1
             oi = [j for j, it in enumerate(items) if it is getattr(r, "it", None)]
-            out.append([ti, oi[0] if oi else -1])
+            yi = [j for j, y in enumerate(self._ys) if y is getattr(r, "other", None)]
+            out.append([ti, oi[0] if oi else -1] + ([yi[0] if yi else -1] if self.spec.get("binary") else []))
         return out
 
     # reference -----------------------------------------------------------------------------------
-    def reference(self, alg, obj):
-        """{type index: term} - under which condition T_i is concluded for obj."""
+    def reference(self, alg, obj, sigma=None):
+        """{type index: term} - under which condition T_i is concluded for obj (sigma: bin node index -> its y object)."""
         out = {}
+        sigma = sigma or {}
 
         def cond(n):
+            if n.get("bin"):
+                return alg.cmp("lt", cond_val(obj, n["i"]), sigma[n["i"]].a)
             return alg.cmp("gt", cond_val(obj, n["i"]), 0)
 
         def chain(ch, guard):
@@ -202,13 +227,46 @@ class C12(Case):
         obs = []
         for rn, rows in enumerate(runs):
             tag = "" if rn == 0 else "re-eval:"
-            obs.append((tag + "only_conclusion_types_over_domain_objects", alg.const(all(t >= 0 and o >= 0 for t, o in rows))))
-            for oi, obj in enumerate(items):
-                ref = self.reference(alg, obj)
-                for ti, term in ref.items():
-                    cnt = sum(1 for t, o in rows if t == ti and o == oi)
-                    obs.append((tag + "object_%d_conclusion_T%d_count_%d" % (oi, ti, cnt),
-                                alg.and_(alg.const(cnt <= 1), alg.iff(alg.const(cnt == 1), term))))
+            obs.append((tag + "only_conclusion_types_over_domain_objects", alg.const(all(r[0] >= 0 and r[1] >= 0 for r in rows))))
+            binmap = {}
+
+            def collect(ch):
+                for n_ in ch:
+                    binmap[n_["i"]] = bool(n_.get("bin"))
+                    if n_.get("exc"):
+                        collect(n_["exc"])
+            collect(self.spec["tree"])
+            bins = sorted(i for i, b in binmap.items() if b)
+            if not bins:
+                for oi, obj in enumerate(items):
+                    ref = self.reference(alg, obj)
+                    for ti, term in ref.items():
+                        cnt = sum(1 for r in rows if r[0] == ti and r[1] == oi)
+                        obs.append((tag + "object_%d_conclusion_T%d_count_%d" % (oi, ti, cnt),
+                                    alg.and_(alg.const(cnt <= 1), alg.iff(alg.const(cnt == 1), term))))
+            else:
+                # branches with their own variable: an assignment binds x and every branch variable; the SET of produced
+                # conclusions must be {conclusion(sigma) | sigma a total assignment}; multiplicity is not demanded
+                import itertools
+                sigmas = [dict(zip(bins, combo)) for combo in itertools.product(range(len(self._ys)), repeat=len(bins))]
+                for oi, obj in enumerate(items):
+                    refs = [(sg, self.reference(alg, obj, {b: self._ys[j] for b, j in sg.items()})) for sg in sigmas]
+                    for ti in binmap:
+                        if binmap[ti]:
+                            for yj in range(len(self._ys)):
+                                present = any(r[0] == ti and r[1] == oi and r[2] == yj for r in rows)
+                                terms = [ref[ti] for sg, ref in refs if sg[ti] == yj]
+                                obs.append((tag + "object_%d_witness_%d_T%d_%s" % (oi, yj, ti, "present" if present else "absent"),
+                                            alg.and_(alg.implies(alg.and_(*terms), alg.const(present)),
+                                                     alg.implies(alg.const(present), alg.or_(*terms)))))
+                            stray = sum(1 for r in rows if r[0] == ti and r[1] == oi and r[2] < 0)
+                            obs.append((tag + "object_%d_T%d_without_witness_%d" % (oi, ti, stray), alg.const(stray == 0)))
+                        else:
+                            present = any(r[0] == ti and r[1] == oi for r in rows)
+                            terms = [ref[ti] for sg, ref in refs]
+                            obs.append((tag + "object_%d_T%d_%s" % (oi, ti, "present" if present else "absent"),
+                                        alg.and_(alg.implies(alg.and_(*terms), alg.const(present)),
+                                                 alg.implies(alg.const(present), alg.or_(*terms)))))
         return obs
 
 
@@ -230,6 +288,39 @@ def shapes(tier, seed):
                 out.append(dict(tree=t, spelling="infer"))
             else:
                 out.append(dict(tree=t, twice=True))
+    # branches that introduce their own variable (as the suite's rule trees do): a leaf branch other than the base
+    def leaves_of(tree):
+        acc = []
+
+        def rec(ch, is_base_chain):
+            for k_, n_ in enumerate(ch):
+                if not n_.get("exc") and not (is_base_chain and k_ == 0):
+                    acc.append(n_["i"])
+                if n_.get("exc"):
+                    rec(n_["exc"], False)
+        rec(tree, True)
+        return acc
+
+    def mark(tree, idxs):
+        t2 = json.loads(json.dumps(tree))
+
+        def rec(ch):
+            for n_ in ch:
+                if n_["i"] in idxs:
+                    n_["bin"] = True
+                if n_.get("exc"):
+                    rec(n_["exc"])
+        rec(t2)
+        return t2
+    for B in range(2, (4 if tier == "quick" else 5) + 1):
+        for t in all_trees(B):
+            ls = leaves_of(t)
+            for i in ls:
+                out.append(dict(tree=mark(t, [i]), binary=True))
+                if B <= 3:
+                    out.append(dict(tree=mark(t, [i]), binary=True, twice=True))
+            if len(ls) >= 2 and B <= 3:
+                out.append(dict(tree=mark(t, ls[:2]), binary=True))
     if tier == "thorough":
         seven = list(all_trees(7))
         for t in rnd.sample(seven, min(200, len(seven))):
